@@ -11,6 +11,7 @@
 import YarlProofs.C18
 import YarlProofs.C12Url
 import YarlProofs.Lemmas.FixLemmas
+import YarlProofs.Lemmas.SubLemmas
 set_option linter.unusedVariables false
 set_option linter.unusedSimpArgs false
 namespace Yarl
@@ -1066,11 +1067,13 @@ theorem authCh_of_fix {c : Nat} (h : 33 ≤ c ∧ c < 128 ∧ Rfc.isDelim3 c = f
   unfold AuthCh
   omega
 
-/-- `URL.host` of a stored registered name that does not end in a digit: the IDNA-decoded text.
-    (When it DOES end in a digit `URL.host` returns the stored form undecoded.) -/
+/-- `URL.host` of a stored registered name that does not end in a digit, or contains "xn--": the
+    IDNA-decoded text.  (When it ends in a digit and has no "xn--" `URL.host` returns the stored form
+    undecoded; before commit 60dbf1e it did so for every digit-ending host, A-labels included.) -/
 theorem host_reg (e : Env) (u : Url) (raw D : Str) (ph : PlainHost raw)
     (hraw : rawHost e u = .ok (some raw)) (hidna : e.o.idnaDec raw = some (some D))
-    (hlast : (∀ l, raw.getLast? = some l → isDigitC l = false) ∨ D = raw) :
+    (hlast : (∀ l, raw.getLast? = some l → isDigitC l = false) ∨ hasSub [120, 110, 45, 45] raw = true ∨
+      D = raw) :
     host e u = .ok (some D) := by
   unfold host
   rw [hraw]
@@ -1087,10 +1090,12 @@ theorem host_reg (e : Env) (u : Url) (raw D : Str) (ph : PlainHost raw)
   have h58 : mem 58 raw = false := NetlocLemmas.mem_false_iff.mpr (plain_avoid ph (by decide))
   rw [hl]
   simp only [isDigitChar, hlt, ↓reduceIte, pure, Except.pure, h58, Bool.or_false]
-  cases hd : isDigitC l with
+  cases hd : (isDigitC l && !hasSub [120, 110, 45, 45] raw) with
   | true =>
-    rcases hlast with hlast | hlast
-    · rw [hlast l hl] at hd; cases hd
+    simp only [Bool.and_eq_true, Bool.not_eq_eq_eq_not, Bool.not_true] at hd
+    rcases hlast with hlast | hlast | hlast
+    · rw [hlast l hl] at hd; exact absurd hd.1 (by decide)
+    · rw [hlast] at hd; exact absurd hd.2 (by decide)
     · rw [hlast]; rfl
   | false =>
     simp only [Bool.false_eq_true, ↓reduceIte, idnaDecode, ph.ascii, Bool.not_true, hidna, ask,
@@ -1113,7 +1118,7 @@ theorem hostRT_plain (e : Env) {h : Str} (ph : PlainHost h) (hidna : e.o.idnaDec
   hne := ph.ne
   build := by rw [plain_bracket ph]; exact encodeHost_plain e.o h true ph
   okH := plain_hostOK ph
-  shown := fun u hraw => host_reg e u h h ph hraw hidna (Or.inr rfl)
+  shown := fun u hraw => host_reg e u h h ph hraw hidna (Or.inr (Or.inr rfl))
   disp := dispHost_plain ph
   enc := by rw [plain_bracket ph]; exact encodeHost_plain e.o h false ph
   colon := id
@@ -1128,17 +1133,20 @@ theorem encodeHost_idn (o : Oracles) (h raw : Str) (v b : Bool) (hna : isAscii h
     Bool.and_false, pure, Except.pure]
 
 /-- an internationalised host `h` (not ASCII, not an IP literal) whose A-label form is `raw`:
-    `idnaEncode h = raw` and `idnaDec raw = h` are the two oracle facts of the IDNA round trip -/
+    `idnaEncode h = raw` and `idnaDec raw = h` are the two oracle facts of the IDNA round trip.
+    `hlast`: `raw` does not end in a digit, or contains "xn--" (every real A-label form does; the
+    encoder is an oracle here, so it is a hypothesis). -/
 theorem hostRT_idn (e : Env) {h raw : Str} (b : Bool) (ph : PlainHost raw) (hna : isAscii h = false)
     (hlook : looksIP e.o h = .ok b) (hnoip : parseIP (partition 37 h).1 = none)
     (henc : idnaEncode e.o h = .ok raw) (hdec : e.o.idnaDec raw = some (some h))
-    (hlast : ∀ l, raw.getLast? = some l → isDigitC l = false)
+    (hlast : (∀ l, raw.getLast? = some l → isDigitC l = false) ∨ hasSub [120, 110, 45, 45] raw = true)
     (hd : DispHost h) (h58 : 58 ∉ h) : HostRT e h raw h where
   hne := hd.ok.1
   build := by
     rw [plain_bracket ph]; exact encodeHost_idn e.o h raw true b hna hlook hnoip henc ph.reg
   okH := plain_hostOK ph
-  shown := fun u hraw => host_reg e u raw h ph hraw hdec (Or.inl hlast)
+  shown := fun u hraw => host_reg e u raw h ph hraw hdec
+    (hlast.elim Or.inl (fun hx => Or.inr (Or.inl hx)))
   disp := hd
   enc := by
     rw [plain_bracket ph]; exact encodeHost_idn e.o h raw false b hna hlook hnoip henc ph.reg
@@ -1166,13 +1174,16 @@ theorem ipv4_last {s : Str} {o4 : List Nat} (h : parseIPv4 s = some o4) :
     rw [h2]; rfl
 
 theorem host_literal (e : Env) (u : Url) (raw : Str) (hraw : rawHost e u = .ok (some raw))
-    (hl : ∃ l, raw.getLast? = some l ∧ l < 128 ∧ (isDigitC l = true ∨ mem 58 raw = true)) :
+    (hl : ∃ l, raw.getLast? = some l ∧ l < 128 ∧
+      ((isDigitC l = true ∧ hasSub [120, 110, 45, 45] raw = false) ∨ mem 58 raw = true)) :
     host e u = .ok (some raw) := by
   obtain ⟨l, h1, h2, h3⟩ := hl
   unfold host
   rw [hraw]
   simp only [bind, Except.bind, h1, isDigitChar, h2, ↓reduceIte, pure, Except.pure]
-  rcases h3 with h3 | h3 <;> simp [h3]
+  rcases h3 with ⟨h3, h4⟩ | h3
+  · simp [h3, h4]
+  · simp [h3]
 
 theorem hostRT_ipv4 (e : Env) {s : Str} {o4 : List Nat} (h4 : parseIPv4 s = some o4) :
     HostRT e s s s := by
@@ -1189,7 +1200,8 @@ theorem hostRT_ipv4 (e : Env) {s : Str} {o4 : List Nat} (h4 : parseIPv4 s = some
     hne := hf.ok.1
     build := by rw [hb]; exact C16_ipv4_kept e.o s true o4 h4 (n 37 (by decide) (by decide))
     okH := hf.ok
-    shown := fun u hraw => host_literal e u s hraw ⟨l, hl1, hl2, Or.inl hl3⟩
+    shown := fun u hraw => host_literal e u s hraw
+      ⟨l, hl1, hl2, Or.inl ⟨hl3, SubLemmas.xn_not_in_digits_dots hch⟩⟩
     disp := ⟨hf.ok, fun c hc => authCh_of_fix (hf.chars c hc), hf.notV⟩
     enc := hf.enc
     colon := id }
